@@ -152,12 +152,17 @@ fn vec_try_reserve_under_refusal(args: &Args, rep: &mut Report) {
                 }
             }
             let spare = v.capacity() - v.len();
-            let k = match rng.below(4) {
+            let room = a.chunk_capacity();
+            let k = match rng.below(6) {
                 0 => spare,
                 1 => rng.below(spare + 1),
                 2 => spare + 1,
+                // exactly (or one element short of / beyond) what the current chunk can still serve
+                3 => spare + room / 4,
+                4 => (spare + room / 4).saturating_sub(1),
                 _ => spare + rng.range(1, 200) as usize,
             };
+            let is_last = !neighbour && !(fill_chunk && room > 0 && room < (1 << 16));
             let (p0, c0) = (v.as_ptr() as usize, v.capacity());
             let want: Vec<u32> = v.iter().copied().collect();
             if by_limit {
@@ -188,6 +193,13 @@ fn vec_try_reserve_under_refusal(args: &Args, rep: &mut Report) {
                         if asked != 0 || v.as_ptr() as usize != p0 || v.capacity() != c0 {
                             rep.violate("C09", format!("C09/collections/vec::{}/request-inside-spare-capacity-was-not-a-no-op", name), format!("spare {} additional {}: {} allocator request(s), buffer {:#x} -> {:#x}, capacity {} -> {} ({})", spare, k, asked, p0, v.as_ptr() as usize, c0, v.capacity(), rep.ctx));
                         }
+                    } else if !ok && is_last && {
+                        let new_cap = if exact { v.len() + k } else { (v.len() + k).max(c0 * 2) };
+                        (new_cap - c0) * 4 <= a.chunk_capacity()
+                    } {
+                        // the vector's buffer is the newest block and the extension fits in the room left in its chunk
+                        rep.violate("C09", format!("C09/collections/vec::{}/extension-that-fits-the-current-chunk-failed", name), format!("capacity {} len {} additional {} with {} bytes left in the chunk ({})", c0, v.len(), k, a.chunk_capacity(), rep.ctx));
+                        rep.violate("C07", format!("C07/fitting-request-failed/vec::{}/extension-of-the-newest-block", name), format!("capacity {} len {} additional {} with {} bytes left in the chunk ({})", c0, v.len(), k, a.chunk_capacity(), rep.ctx));
                     } else if ok {
                         if v.capacity() < v.len() + k {
                             rep.violate("C09", format!("C09/collections/vec::{}/ok-without-the-capacity", name), format!("len {} additional {} capacity {}", v.len(), k, v.capacity()));
